@@ -115,11 +115,12 @@ def viol(clause, detail, **sig):
 class BtProp(Prop):
     family = "bt"
     profiles = [("core", 1.0)]
-    quick_n, thorough_n = 300, 6000
+    quick_n, thorough_n = 3000, 40000
     keep = "TNWP"          # which observation lines take part in the correspondence
     keep_events = "EIUXY"  # which trace events
     keep_own = True        # own-state column of N
     keep_cur = False       # current-child column of N
+    exhaustive = False     # thorough tier adds the exhaustive small-scope block
     assumptions = ["visitors / handlers do not mutate the tree mid-tick", "user callbacks do not raise",
                    "integer clock (fake time module installed by the harness)",
                    "leaf outcomes are SUCCESS / FAILURE / RUNNING"]
@@ -141,6 +142,8 @@ class BtProp(Prop):
             if tier == "thorough" and i % 4 == 0:
                 prof = bt_gen.Profile(**dict(vars(prof), max_nodes=25, max_ops=40, max_depth=5))
             out.append(bt_gen.gen_scenario(rng, prof, "%s_%s_%d" % (self.pid, tier[0], i)))
+        if tier == "thorough" and self.exhaustive:
+            out += exhaustive_block(self.pid)
         return out
 
     def run_impl(self, s):
@@ -203,6 +206,38 @@ class BtProp(Prop):
         return []
 
 
+def exhaustive_block(pid):
+    """EXHAUSTIVE small scope: every root in {Sequence, Selector} x memory, Parallel x {all, all+sync, one} with two
+    children, each child a probe leaf or one of five decorators over a probe leaf; every assignment of S/F/R to the two
+    probes on two consecutive ticks, with and without a root interrupt in between (252 trees x 162 schedules)."""
+    import itertools
+    from common import Scenario
+    roots = [("Q", False), ("Q", True), ("S", False), ("S", True), ("P", "all:0"), ("P", "all:1"), ("P", "one")]
+    kids = [None, "inv", "ris", "fir", "retry:2", "oneshot:0"]
+    out = []
+    n = 0
+    for r in roots:
+        for k1 in kids:
+            for k2 in kids:
+                def child(k, base):
+                    leaf = ("L", base + 1 if k else base, ["probe"])
+                    return ("D", base, k, leaf) if k else leaf
+                c1, c2 = child(k1, 2), child(k2, 4)
+                spec = (r[0], 1, r[1], [c1, c2])
+                p1 = 3 if k1 else 2
+                p2 = 5 if k2 else 4
+                header = "tree " + bt_impl.spec_str(spec)
+                for a in itertools.product("SFR", repeat=4):
+                    for stop in (False, True):
+                        ops = ["tick o=%d:%s,%d:%s g= t=0" % (p1, a[0], p2, a[1])]
+                        if stop:
+                            ops.append("stop 1")
+                        ops.append("tick o=%d:%s,%d:%s g= t=1" % (p1, a[2], p2, a[3]))
+                        out.append(Scenario("bt", "%s_x_%d" % (pid, n), [header], ops, {"spec": spec}))
+                        n += 1
+    return out
+
+
 def st_of(o, i):
     return o.N[i][0] if o is not None and i in o.N else "I"
 
@@ -233,6 +268,7 @@ def interrupted_later(sh, o, i):
 @register
 class C01(BtProp):
     pid = "C01"
+    exhaustive = True
     profiles = [("core", 0.6), ("par", 0.15), ("dec", 0.15), ("stock", 0.10)]
     keep = "TN"
     keep_events = "IUX"
@@ -346,6 +382,7 @@ class C01(BtProp):
 @register
 class C02(BtProp):
     pid = "C02"
+    exhaustive = True
     profiles = [("core", 0.5), ("par", 0.2), ("dec", 0.2), ("stock", 0.1)]
     keep = "TN"
     keep_events = "X"
@@ -398,6 +435,7 @@ def composite_entries(sh, o, kind):
 @register
 class C03(BtProp):
     pid = "C03"
+    exhaustive = True
     profiles = [("seq", 0.7), ("coreprobe", 0.3)]
     keep = "TN"
     keep_events = "EUXY"
@@ -494,6 +532,7 @@ class C03(BtProp):
 @register
 class C04(BtProp):
     pid = "C04"
+    exhaustive = True
     profiles = [("sel", 0.7), ("coreprobe", 0.3)]
     keep = "TN"
     keep_events = "EUXY"
@@ -604,6 +643,7 @@ def policy_valid(sh, q):
 @register
 class C05(BtProp):
     pid = "C05"
+    exhaustive = True
     profiles = [("par", 0.75), ("coreprobe", 0.25)]
     keep = "TN"
     keep_events = "EUXY"
@@ -656,6 +696,38 @@ class C05(BtProp):
                         out.append(viol("cleanup", "parallel %d completed %s with child %d still RUNNING"
                                         % (q, Y[q], c)))
         return out
+
+    def generate(self, rng, tier):
+        out = BtProp.generate(self, rng, tier)
+        # a selection that becomes invalid while the parallel is RUNNING: the selected child is pruned between two ticks
+        n = max(20, len([s for s in out if "_x_" not in s.name]) // 10)
+        for i in range(n):
+            k = rng.randint(2, 4)
+            kids = [("L", 2 + j, ["probe"]) for j in range(k)]
+            sel = sorted(rng.sample(range(2, 2 + k), rng.randint(1, k)))
+            victim = rng.choice(sel)
+            spec = ("P", 1, "sel:%s:%s" % (rng.choice("01"), ",".join(map(str, sel))), kids)
+            if rng.random() < 0.5:
+                spec = ("Q", 50, False, [spec, ("L", 60, ["probe"])])
+            allr = ",".join("%d:R" % (2 + j) for j in range(k)) + ",60:R"
+            ops = ["tick o=%s g= t=0" % allr]
+            if rng.random() < 0.5:
+                ops.append("tick o=%s g= t=1" % allr)
+            ops += ["prune %d" % victim, "tick o=%s g= t=2" % allr]
+            s = bt_gen.Scenario("bt", "%s_%s_e%d" % (self.pid, tier[0], i), ["tree " + bt_impl.spec_str(spec)], ops,
+                                {"spec": spec, "must_raise_last": True})
+            out.append(s)
+        return out
+
+    def oracle(self, s, lines):
+        if s.meta.get("must_raise_last"):
+            obs = parse_obs(lines)
+            last = obs[-1] if obs else None
+            if last is None or last.err != "RuntimeError":
+                return [viol("validate-at-tick", "the selected child was removed while the parallel was RUNNING; the next "
+                             "tick did not raise RuntimeError (%s)" % (last.err if last else None))]
+            return []
+        return BtProp.oracle(self, s, lines)
 
     def check_history(self, sh, obs):
         # an invalid selection must raise RuntimeError when its parallel is reached
@@ -893,6 +965,7 @@ class C10(BtProp):
 @register
 class C19(BtProp):
     pid = "C19"
+    exhaustive = True
     profiles = [("coreprobe", 0.5), ("seqsel", 0.5)]
     keep = "NP"
     keep_own = False
@@ -1065,6 +1138,15 @@ class C17(BtProp):
                                 sh.node[j][0] == "D" and sh.node[j][2].startswith("s2b") for j in sh.node):
                             out.append(viol("unset-effect", "UnsetBlackboardVariable %d ran but %s still has a value"
                                             % (i, n[2][1])))
+                # StatusToBlackboard publishes the child's status on every tick (round trip with BlackboardToStatus)
+                Yd = yielded(o)
+                for d, n in sh.node.items():
+                    if n[0] == "D" and n[2].startswith("s2b:") and d in Yd and n[2].split(":")[2] == "-":
+                        key = n[2].split(":")[1]
+                        cs = Yd.get(sh.kids[d][0])
+                        if cs is not None and o.W.get(key) != "s:" + cs and not C09._overwritten(sh, o, d, key):
+                            out.append(viol("s2b-publish", "StatusToBlackboard %d: child %s but %s=%s after `%s`"
+                                            % (d, cs, key, o.W.get(key), o.op[:30]), kind="s2b"))
             prevW = dict(o.W)
             if out:
                 break
